@@ -1480,10 +1480,10 @@ def o11(h):
     def fr(dg, st, E, nu, Y0, H, dt, S, ed0):
         return f_chain(dg, st, E, nu, Y0, H, dt, rate=(S, 1.0, ed0))
     ch = chain_case(h, build_plane, 'plane_rate_m1', fn=fr, ex=ex, sampler=smp)
-    links_flow_direction(ch)
-    links_yield_predicate(ch)
-    links_return(ch)
-    links_bracket(ch)
+    links_flow_direction(ch, cap=300)       # the rate term S/(dt*epsDot0) makes these links 5-20 s: caps keep >= 5x headroom per solver share
+    links_yield_predicate(ch, cap=300)
+    links_return(ch, cap=300)
+    links_bracket(ch, cap=300)
     if not ch.violated:
         ch.close('plane_rate_m1.lb_lt_ub', lambda q: Lt(q.A['lb'], q.A['ub'], when=q.g, scale=0.0))
         ch.close('plane_rate_m1.r_lb_negative', lambda q: Lt(q.A['rl'], 0.0, when=q.g, scale=0.0))
